@@ -16,7 +16,7 @@ Decided:
 Not decided: ROMix / BlockMix data flow and values."""
 import re
 
-from .. import mir, pred, rules
+from .. import mir, pred, rules, ssa
 from ..mir import fmt, walk, const_val
 
 EXPLANATION = __doc__
@@ -306,9 +306,87 @@ def check_scrypt(ctx, P):
     ctx.check(ok, "scrypt-integerify", "LE32(B[len-64..]) & (N-1)", "Integerify reads the first word of the last 64-byte block, masked with N-1", "integerify does not read LE32 at len-64 masked with n-1: %s" % fmt(e), where=ig.where(), key="scrypt-integerify")
 
 
+def term_eval(t, leaf):
+    """evaluate an ssa integer term; `leaf(term)` supplies values for leaves (None = unknown)"""
+    v = leaf(t)
+    if v is not None:
+        return v
+    if not isinstance(t, tuple) or not t:
+        return None
+    k = t[0]
+    if k == "c":
+        return int(t[1]) if not isinstance(t[1], bool) else int(t[1])
+    if k == "cast":
+        return term_eval(t[1], leaf)
+    if k == "ite":
+        c = term_eval(t[1], leaf)
+        if c is None:
+            return None
+        return term_eval(t[2] if c else t[3], leaf)
+    if k == "bin":
+        a, b = term_eval(t[2], leaf), term_eval(t[3], leaf)
+        if a is None or b is None:
+            return None
+        op = t[1]
+        try:
+            return {"Add": a + b, "Sub": a - b, "Mul": a * b, "Div": a // b if b else None, "Rem": a % b if b else None, "BitAnd": a & b, "BitOr": a | b, "BitXor": a ^ b,
+                    "Shl": a << b, "Shr": a >> b, "Eq": int(a == b), "Ne": int(a != b), "Lt": int(a < b), "Le": int(a <= b), "Gt": int(a > b), "Ge": int(a >= b)}[op]
+        except KeyError:
+            return None
+    return None
+
+
+def check_block_mix(ctx, P):
+    """RFC 7914 BlockMix output order: Y0, Y2, ..., Y(2r-2), Y1, Y3, ..., Y(2r-1)."""
+    fn = P.fn("scrypt::scrypt_block_mix")
+    r = ssa.Eval(P, fn).run()
+    outs = [c for c in r.calls if c[1].endswith("copy_from_slice") and isinstance(c[2][0], tuple) and c[2][0][0] == "ref" and c[2][0][1] == ("ext", "arg2")]
+    ok = len(outs) == 1 and outs[0][2][0][3] is not None
+    bad = None
+    n = 0
+    if ok:
+        lo, hi = outs[0][2][0][3]
+
+        def is_idx(t):
+            return isinstance(t, tuple) and t and t[0] == "elem" and "Enumerate" in repr(t) and t[-1] == "0" and isinstance(t[1], tuple) and t[1][0] == "elem"
+        for rr in range(1, 17):
+            L = 128 * rr
+            for i in range(2 * rr):
+                def leaf(t, i=i, L=L):
+                    if t == ("len", "arg1"):
+                        return L
+                    if is_idx(t):
+                        return i
+                    return None
+                a, b = term_eval(lo, leaf), term_eval(hi, leaf)
+                want = (i // 2) * 64 + (i % 2) * (L // 2)
+                n += 1
+                if a != want or b != want + 64:
+                    bad = bad or (rr, i, a, b, want)
+    ctx.check(ok and bad is None and n == 272, "blockmix-order", "scrypt_block_mix", "sub-block i is written to output[(i/2)*64 + (i%%2)*len/2 ..+64] (constant propagation over r = 1..16, i < 2r: %d cases)" % n,
+              "scrypt_block_mix does not place sub-block i at (i/2)*64 + (i%%2)*(len/2): %s" % (("for r=%d, i=%d it writes [%s..%s), RFC 7914 requires offset %d" % bad) if bad else "output window not found"), where=fn.where(), key="blockmix-order")
+    # X starts as the last 64-byte sub-block; each step is X = Salsa20/8(X xor B_i)
+    xs = [c for c in r.calls if c[1] in ("scrypt::xor", "scrypt::salsa20_8")]
+    names = [c[1].split("::")[-1] for c in xs]
+    ctx.check(names == ["xor", "salsa20_8"], "blockmix-step", "scrypt_block_mix", "per sub-block: t = X xor B_i; X = Salsa20/8(t)", "scrypt_block_mix's loop body is not xor then salsa20_8: %s" % names, where=fn.where(), key="blockmix-step")
+
+
+def check_hkdf_fresh(ctx, P):
+    for nm in ("hkdf_extract", "hkdf_expand"):
+        fn = P.fn("hkdf::" + nm)
+        hn = fn.calls_to(r"hmac::Hmac::<D>::new$")
+        rs = [c for c in fn.calls() if (c.trait or "").endswith("digest::Digest") and c.name().endswith("::reset") or (c.callee or "").endswith("Digest::reset")]
+        rs = [c for c in rs if cn(fn, c.args[0]) == "arg1"]
+        others = [c for c in fn.calls() if ((c.callee or "").startswith("digest::Digest::") and not (c.callee or "").endswith(("::reset", "::output_bytes", "::output_bits", "::block_size")) and cn(fn, c.args[0]) == "arg1")]
+        ok = len(hn) == 1 and len(rs) >= 1 and any(fn.dominates(c.bb, hn[0].bb) and c.bb != hn[0].bb for c in rs) and cn(fn, hn[0].args[0]) == "arg1" and not others
+        ctx.check(ok, "hkdf-fresh", nm, "the caller's digest is reset before it keys the HMAC (Hmac::new does not reset it)", "%s hands the caller's digest to Hmac::new without resetting it first: a digest with history yields a wrong PRK / OKM" % nm, where=fn.where(), key="hkdf-fresh:%s" % nm)
+
+
 def run(ctx):
     P = ctx.prog("K0")
     ctx.guard("hkdf", "expand/extract", lambda: check_hkdf(ctx, P))
+    ctx.guard("hkdf-fresh", "expand/extract", lambda: check_hkdf_fresh(ctx, P))
+    ctx.guard("blockmix-order", "scrypt", lambda: check_block_mix(ctx, P))
     ctx.guard("pbkdf2", "pbkdf2", lambda: check_pbkdf2(ctx, P))
     ctx.guard("scrypt", "scrypt", lambda: check_scrypt(ctx, P))
     ctx.not_decided += ["ROMix / BlockMix data flow and all derived key values", "HMAC itself (C08)"]
